@@ -56,7 +56,8 @@ pub struct Case {
     pub min: u64,
     pub max: u64,
     pub default: Option<u64>,
-    /// 0 = build().min().max()[.default()].finish(), 1 = finish_with(max, min), 2 = build().finish() (type bounds)
+    /// 0 = build().min().max()[.default()].finish(), 1 = finish_with(max, min), 2 = build().finish() (type bounds),
+    /// 3 = build()[.default()].max().min(), 4 = build().max()[.default()].min(), 5 = NumericBuilder::new(v, max, min)[.default()]
     pub path: u8,
 }
 
@@ -137,6 +138,22 @@ where
     let got = match case.path {
         2 => nv.build().finish(),
         1 => nv.finish_with(max, min),
+        // the same configuration through every order of the setters / constructors
+        3 => match default {
+            Some(d) => nv.build().default(d).max(max).min(min).finish(),
+            None => nv.build().max(max).min(min).finish(),
+        },
+        4 => match default {
+            Some(d) => nv.build().max(max).default(d).min(min).finish(),
+            None => nv.build().max(max).min(min).finish(),
+        },
+        5 => {
+            let b = scpi_contrib::scpi1999::NumericBuilder::new(nv, max, min);
+            match default {
+                Some(d) => b.default(d).finish(),
+                None => b.finish(),
+            }
+        }
         _ => {
             let b = nv.build().min(min).max(max);
             match default {
@@ -145,6 +162,7 @@ where
             }
         }
     };
+    obs.label_if(case.path >= 3 && default.is_some(), "setter order varied with a default configured");
     let want: Result<T, i16> = match (kw, expect_value) {
         (Some(Kw::Max), _) => Ok(hi),
         (Some(Kw::Min), _) => Ok(lo),
@@ -372,7 +390,7 @@ fn case_strategy() -> impl Strategy<Value = Case> {
                 1 => proptest::collection::vec(any::<u8>(), 0..5).prop_map(Tok::Block),
                 1 => "[0-9,:]{0,5}".prop_map(Tok::Expr),
             ];
-            (Just(ty), tok, Just((lo, hi, def)), prop_oneof![4 => Just(0u8), 2 => Just(1u8), 1 => Just(2u8)])
+            (Just(ty), tok, Just((lo, hi, def)), prop_oneof![4 => Just(0u8), 2 => Just(1u8), 1 => Just(2u8), 1 => Just(3u8), 1 => Just(4u8), 1 => Just(5u8)])
         })
         .prop_map(|(ty, tok, (lo, hi, def), path)| Case { ty, tok, min: lo.to_bits(), max: hi.to_bits(), default: def.map(f64::to_bits), path })
 }
